@@ -328,6 +328,30 @@ class GuardWalker:
             for item in st.items:
                 self.expr(item.context_expr, facts)
             return self.block(st.body, facts)
+        if isinstance(st, ast.Match):
+            self.expr(st.subject, facts)
+            outs = []
+            exhaustive = False
+            for case in st.cases:
+                inner = facts.copy()
+                for n in ast.walk(case.pattern):
+                    name = getattr(n, "name", None) or getattr(n, "rest", None)
+                    if isinstance(name, str):
+                        inner.kill(name)
+                        self.kill_aliases(name)
+                if case.guard is not None:
+                    self.expr(case.guard, inner)
+                    tf, _ = self.tf(case.guard)
+                    inner.add(tf)
+                r = self.block(case.body, inner)
+                if not block_exits(case.body):
+                    outs.append(r)
+                if isinstance(case.pattern, ast.MatchAs) and \
+                        case.pattern.pattern is None and case.guard is None:
+                    exhaustive = True
+            if not exhaustive:
+                outs.append(facts)
+            return meet_all(outs) if outs else facts
         if isinstance(st, (ast.Assign, ast.AnnAssign, ast.AugAssign)):
             val = st.value
             if val is not None:
